@@ -51,7 +51,19 @@ def gen_behaviour(rng, cwd_marker=True):
             files[nm] = (False, b'\x89BIN\r\n\x1a\n\x00\x00' + bytes(rng.randrange(256) for _ in range(rng.randint(300, 600))))
         else:
             lines = [rng.choice(TEXT_LINES) for _ in range(rng.randint(0, 5))]
-            files[nm] = (True, ('\n'.join(lines) + ('\n' if lines and rng.random() < 0.8 else '')).encode('utf-8'))
+            text = '\n'.join(lines) + ('\n' if lines and rng.random() < 0.8 else '')
+            r = rng.random()
+            if r < 0.75:
+                data = text.encode('utf-8')
+            elif r < 0.85:
+                # Latin-1 bytes only
+                data = ('Andr\u00e9 lives in K\u00f6ln\n' + text).encode('latin-1', errors='replace')
+            elif r < 0.92:
+                data = b'\xef\xbb\xbf' + text.encode('utf-8')
+            else:
+                # a UTF-8 byte-order mark followed later by a Latin-1 byte: the encoding first guessed cannot decode it
+                data = b'\xef\xbb\xbfname,city\n' + text.encode('ascii', errors='replace') + b'Andr\xe9,Paris\n'
+            files[nm] = (True, data)
     code = rng.choice([0, 0, 0, 3, 1])
     return {'out': out, 'err': err, 'files': files, 'code': code, 'final_newline': rng.random() < 0.85}
 
@@ -75,6 +87,11 @@ def write_command(d, beh):
             f.write(data)
         target = os.path.join(d + '_out', nm) if nm in beh.get('sibling', ()) else os.path.join(d, 'outdir', nm)
         lines.append('cp %s %s' % (sh_quote(os.path.join(pay, 'f%d' % i)), sh_quote(target)))
+        if nm in beh.get('both', ()):
+            # the same base name is also written in the main output directory (with other content)
+            with open(os.path.join(pay, 'g%d' % i), 'wb') as f:
+                f.write(b'second copy\n' + data if text else data + b'\x02')
+            lines.append('cp %s %s' % (sh_quote(os.path.join(pay, 'g%d' % i)), sh_quote(os.path.join(d, 'outdir', nm))))
     lines.append('exit %d' % beh['code'])
     with open(os.path.join(d, 'cmd.sh'), 'w', encoding='utf-8') as f:
         f.write('\n'.join(lines) + '\n')
